@@ -211,6 +211,88 @@ def h_paste_near_integer(eps, mx):
 
 
 
+def setup_warp():
+    setup()
+    if symx.concrete_mode():
+        return
+    import odc.geo.warp as warp
+
+    shims.instrument(warp, names=["isinstance"], scan=False)
+
+
+def h_warp_call(dtype, nd, nodata):
+    """what rio_reproject asks of GDAL, and what it makes of the answer, for every pixel type:
+    each 2-D plane is warped once; an explicit destination nodata value -- zero included -- is
+    handed on unchanged, a missing one becomes NaN for float data only; pixels GDAL leaves at
+    nodata come back as that nodata in the caller's dtype (the int8 / bool detours included)"""
+    import numpy as np
+
+    import odc.geo.warp as warp
+    from affine import Affine
+    from odc.geo.geobox import GeoBox
+
+    shape = (4, 5) if nd == 2 else (2, 4, 5)
+    src = np.ones(shape, dtype=dtype)
+    dst = np.zeros(shape, dtype=dtype)
+    sg = GeoBox((4, 5), Affine(10, 0, 0, 0, -10, 0), "epsg:3857")
+    dg = GeoBox((4, 5), Affine(10, 0, 10**6, 0, -10, 0), "epsg:3857")  # far away: nothing is covered
+    conc = symx.concrete_mode()
+    if nodata == "none":
+        nd_val = None
+    elif nodata == "zero":
+        nd_val = False if dtype == "bool" else 0
+    elif dtype == "bool":
+        nd_val = True
+    elif dtype.startswith("float") and not conc:
+        nd_val = Real("dst_nodata")
+    else:
+        nd_val = {"uint8": 255, "int8": -128, "int16": -9999}.get(dtype, float(Real("dst_nodata")) if conc else -7)
+    calls = []
+    if not conc:
+        real_reproject = warp.rasterio.warp.reproject
+
+        def fake_reproject(src_, dst_, **kw):
+            calls.append((src_, dst_, kw))
+            fill = kw.get("dst_nodata")
+            # GDAL initialises the destination with the nodata value; nothing of the source lands here
+            if fill is not None and not isinstance(fill, symx.Sym):
+                dst_[...] = fill
+            elif fill is None:
+                dst_[...] = 0
+
+        warp.rasterio.warp.reproject = fake_reproject
+    try:
+        out = warp.rio_reproject(src, dst, sg, dg, "nearest", dst_nodata=nd_val, ydim=(None if nd == 2 else 1))
+    finally:
+        if not conc:
+            warp.rasterio.warp.reproject = real_reproject
+    prove("returns_the_destination_array", out is dst)
+    is_float = dtype.startswith("float")
+    if conc:
+        want = nd_val
+        if want is None:
+            want = float("nan") if is_float else 0
+        if is_float and want != want:
+            prove("uncovered_pixels_are_nodata", bool(np.isnan(dst).all()))
+        else:
+            prove("uncovered_pixels_are_nodata", bool((dst == np.asarray(want).astype(dtype)).all()))
+        return
+    prove("one_warp_per_plane", len(calls) == (1 if nd == 2 else 2))
+    for k, (s_, d_, kw) in enumerate(calls):
+        prove(f"plane{k}_is_2d", s_.ndim == 2 and d_.ndim == 2)
+        got = kw.get("dst_nodata")
+        if nd_val is None:
+            prove(f"plane{k}_missing_nodata_is_nan_for_floats_only", (got is not None and got != got) if is_float else got is None)
+        elif isinstance(nd_val, symx.Sym):
+            prove(f"plane{k}_nodata_handed_on_unchanged", got is not None and not (isinstance(got, float) and got != got) and (got == nd_val))
+        else:
+            prove(f"plane{k}_nodata_handed_on_in_working_range", got is not None and (got == nd_val or (dtype == "bool" and got == (255 if nd_val else 0))))
+        prove(f"plane{k}_working_dtype", s_.dtype.name == {"int8": "int16", "bool": "uint8"}.get(dtype, dtype))
+    if nd_val is not None and not isinstance(nd_val, symx.Sym):
+        prove("uncovered_pixels_are_nodata", bool((dst == np.asarray(nd_val).astype(dtype)).all()))
+
+
+
 def h_paste_options(padmode, align):
     """(P4) paste is never reported when padding or alignment was requested"""
     ov = ovm()
@@ -261,6 +343,10 @@ OBLIGATIONS = [
     Ob("P5_near_integer_scale", h_paste_near_integer, fixed(dict(eps="9/10000", mx=1), dict(eps="-1/2000", mx=1), dict(eps="1/4000", mx=-1)),
        descr="relative scale near 1 inside the scale tolerance: if paste is reported, every pasted pixel is the nearest-neighbour pixel, for images of any width",
        functions=("odc.geo.overlap.compute_reproject_roi", "odc.geo.overlap._can_paste", "odc.geo.math.snap_affine"), bounds="eps from a grid (it multiplies the pixel index); x sizes, translation and probe pixel symbolic; y axis pinned aligned", setup=setup, timeout_ms=30000),
+    Ob("P6_warp_call", h_warp_call, fixed(*[dict(dtype=d, nd=n, nodata=m) for d in ("uint8", "int8", "bool", "float32") for n in (2, 3) for m in ("none", "zero", "value") if not (n == 3 and m == "none")]),
+       descr="rio_reproject for every pixel type: one warp per 2-D plane, explicit nodata (zero included) handed on unchanged, missing nodata -> NaN for floats only, pixels left at nodata come back as that nodata through the int8 / bool detours",
+       functions=("odc.geo.warp.rio_reproject", "odc.geo.warp._rio_reproject"), bounds="dtypes uint8/int8/bool/float32, 2-D and 3-D arrays, nodata none / zero / a value (symbolic real for floats)",
+       stubs=("rasterio.warp.reproject recorded; it initialises the destination with the nodata value and covers nothing (the replay warps between rasters 1000 km apart with GDAL itself)",), setup=setup_warp),
     Ob("P4_options", h_paste_options, fixed(dict(padmode="1", align=0), dict(padmode="sym", align=0), dict(padmode="none", align=4), dict(padmode="0", align=16)),
        descr="paste never reported with padding/align requested", functions=("odc.geo.overlap.compute_reproject_roi",), setup=setup, timeout_ms=30000),
 ]
